@@ -26,7 +26,7 @@ TAG_NAMES = [("tl", "rm"), ("time-limited", "removal-marker"), ("期限", "印")
 # the last three: characters whose code point ends in the byte of a line break / blank / tab / angle bracket
 # (U+4E0A, U+010A, U+0120, U+0109, U+013C, U+013E) - a `c as u8` comparison would take them for those
 WORDS = ["foo", "bar();", "x = 1", "baz", "日本語", "é;", "return", "}", "{", "if (a) {", "𝄞 y", "a_b",
-         "上 Ċ", "Ġĉ z", "ļ ľ"]
+         "上 Ċ", "Ġĉ z", "ļ ľ", "привет", "λόγος й"]
 
 
 def atoms_for(ds, de):
@@ -204,6 +204,9 @@ class DocGen:
         self.counter += 1
         w = self.rng.choice(WORDS)
         if self.unique:
+            if self.rng.random() < 0.12:
+                # a unique word made of two-byte characters only (and possibly a blank): no ASCII byte on the line
+                return "й" + "".join(chr(0xE0 + int(d)) for d in str(self.counter)) + self.rng.choice(["", " λ", "\tж"])
             return "%s#%d" % (w, self.counter)
         return w
 
